@@ -1334,7 +1334,8 @@ fn tree_sample_check<W: Wt>(tree: &WeightedTreeIndex<W>, model: &[M], rng: &mut 
     match catch(|| tree.try_sample(rng)) {
         Err(p) => {
             if valid {
-                Some(("panic".into(), format!("WeightedTreeIndex<{}> {} is_valid() but try_sample panicked: {}", W::NAME, show(model), p.lines().next().unwrap_or(""))))
+                let sym = if p.contains("target_weight < self.get(index)") { "panic_assert_target" } else { "panic" };
+                Some((sym.into(), format!("WeightedTreeIndex<{}> {} is_valid() but try_sample panicked: {}", W::NAME, show(model), p.lines().next().unwrap_or(""))))
             } else if model.is_empty() || model.iter().all(|m| m.is_zero()) {
                 Some(("panic_when_all_zero".into(), format!("WeightedTreeIndex<{}> {} (empty / all weights zero): try_sample panicked instead of returning InsufficientNonZero: {}", W::NAME, show(model), p.lines().next().unwrap_or(""))))
             } else {
@@ -1497,7 +1498,7 @@ where
         };
         match judge(nn, seed) {
             Err(m) if m.starts_with("skipped") => ctx.class("c10:frequency_runs_skipped_after_hang", 1),
-            Err(m) => viol(ctx, "WeightedTreeIndex", W::NAME, if m.contains("zero-weight") { "zero_weight_index" } else if m.starts_with("hang") { "hang" } else { "panic" }, "random_stream", format!("WeightedTreeIndex<{}> {} after {} mutations: {}", W::NAME, show(&model), muts, m), json!({"kind": "tree_freq", "tree": TreeCase { wt: W::NAME.into(), ops: ops.clone() }, "n": nn})),
+            Err(m) => viol(ctx, "WeightedTreeIndex", W::NAME, if m.contains("zero-weight") { "zero_weight_index" } else if m.starts_with("hang") { "hang" } else if m.contains("target_weight < self.get(index)") { "panic_assert_target" } else { "panic" }, "random_stream", format!("WeightedTreeIndex<{}> {} after {} mutations: {}", W::NAME, show(&model), muts, m), json!({"kind": "tree_freq", "tree": TreeCase { wt: W::NAME.into(), ops: ops.clone() }, "n": nn})),
             Ok(Some(first)) => {
                 if let Ok(Some(second)) = judge(4 * nn, hseed(&[seed, 0xC0F1])) {
                     if second.0 == first.0 {
